@@ -879,10 +879,34 @@ func c01PrevTest(c *Ctx, fn *ssa.Function) {
 		c.AnchorLost("object / previous parameters of " + shortFuncID(fn))
 		return
 	}
+	// The search may be written with loops or with slices.ContainsFunc / IndexFunc predicates (the
+	// closure body is the loop body, its parameter is the element, `return false` is `continue`,
+	// variables of the enclosing function are read through captures): sv is the function plus the
+	// predicate closures of its search calls.
+	sv := &c15Search{p: p, root: fn, obj: obj, prevs: prev, elemOf: map[*ssa.Function]ssa.Value{}}
+	sv.collect(fn, 0)
+	isObj := func(v ssa.Value) bool { return isParam(v, obj) || sv.single(v) == ssa.Value(obj) }
+	isPrevList := func(v ssa.Value) bool { return isParam(v, prev) || sv.single(v) == ssa.Value(prev) }
+	// predParamOver: v is the element parameter of a predicate closure; returns the searched slice
+	predParamOver := func(v ssa.Value) ssa.Value {
+		if prm, ok := v.(*ssa.Parameter); ok && len(prm.Parent().Params) == 1 {
+			if sl, known := sv.elemOf[prm.Parent()]; known {
+				return sl
+			}
+		}
+		return nil
+	}
 	// isPrevElem: v is an element of the previous parameter
 	isPrevElem := func(v ssa.Value) bool {
-		s := sliceOfElem(v)
-		return s != nil && isParam(s, prev)
+		for _, x := range []ssa.Value{v, sv.single(v)} {
+			if s := sliceOfElem(x); s != nil && isPrevList(s) {
+				return true
+			}
+			if s := predParamOver(stripConv(x)); s != nil && isPrevList(s) {
+				return true
+			}
+		}
+		return false
 	}
 	// prevOfClientObject: v is E.ClientObject() for an element E of previous; returns E
 	prevOfClientObject := func(v ssa.Value) ssa.Value {
@@ -906,7 +930,10 @@ func c01PrevTest(c *Ctx, fn *ssa.Function) {
 		var nameSrc, uidSrc ssa.Value
 		var nsOK bool
 		var nName, nUID, nNS int
-		for _, cc := range callsIn(fn) {
+		if at.Parent() != u.Parent() {
+			return false, "the tested owner " + p.describe(owner) + " is not built in the function that tests it"
+		}
+		for _, cc := range callsIn(u.Parent()) {
 			if stripConv(callRecv(cc.Common)) != ssa.Value(u) {
 				continue
 			}
@@ -940,9 +967,27 @@ func c01PrevTest(c *Ctx, fn *ssa.Function) {
 			}
 			s := sliceOfElem(structAddr)
 			if s == nil {
+				// the element parameter of a predicate closure (or its only local copy)
+				e := stripConv(structAddr)
+				if a, isAlloc := e.(*ssa.Alloc); isAlloc {
+					e = nil
+					for _, r := range referrersOf(a) {
+						if st, ok := r.(*ssa.Store); ok && st.Addr == ssa.Value(a) {
+							if e != nil {
+								return nil
+							}
+							e = stripConv(st.Val)
+						}
+					}
+				}
+				if e != nil {
+					s = predParamOver(e)
+				}
+			}
+			if s == nil {
 				return nil
 			}
-			gc, idx := asCall(s)
+			gc, idx := asCall(sv.single(s))
 			if gc == nil || idx != -1 || calleeName(gc.Common()) != "GetRemotePhases" || !isPrevElem(callRecv(gc.Common())) {
 				return nil
 			}
@@ -973,18 +1018,70 @@ func c01PrevTest(c *Ctx, fn *ssa.Function) {
 				continue
 			}
 			o, ob, ok := ownerStrategyCall(call.Common(), "IsController")
-			if ok && isParam(ob, obj) {
+			if ok && isObj(ob) {
 				return o, call
 			}
 		}
 		return nil, nil
 	}
+	// searchOf: v is the result of slices.ContainsFunc(S, pred) with a predicate of the search view
+	searchOf := func(v ssa.Value) (ssa.Value, *ssa.Function) {
+		call, idx := asCall(v)
+		if call == nil || idx != -1 {
+			return nil, nil
+		}
+		if sl, pred, index, isSearch := pfSearchCall(call); isSearch && !index {
+			if _, known := sv.elemOf[pred]; known {
+				return sl, pred
+			}
+		}
+		return nil, nil
+	}
+	// searchFact: a fact "ContainsFunc(S, pred) is <pol>" among fs
+	searchFact := func(fs []Fact, pol bool) (ssa.Value, *ssa.Function) {
+		for _, f := range fs {
+			if f.Pol != pol {
+				continue
+			}
+			if sl, pred := searchOf(f.Cond); pred != nil {
+				return sl, pred
+			}
+		}
+		return nil, nil
+	}
+	// Every predicate closure of the view is judged like the function itself: each way it can
+	// answer true is an obligation of its own, so a result that is "some element satisfies the
+	// predicate" is justified by delegation. A predicate's false only moves on to the next element.
+	var preds []*ssa.Function
+	for pred := range sv.elemOf {
+		preds = append(preds, pred)
+	}
+	sort.Slice(preds, func(i, j int) bool { return shortFuncID(preds[i]) < shortFuncID(preds[j]) })
+	for _, f := range append([]*ssa.Function{fn}, preds...) {
+		c01PrevTestReturns(c, fn, f, prev, classify, ctrlFact, searchOf, searchFact, isObj, isPrevList)
+	}
+}
+
+// c01PrevTestReturns judges the returns of the previous-revision test `root` (f == root) or of one of
+// the predicate closures of its search calls.
+func c01PrevTestReturns(c *Ctx, root, fn *ssa.Function, prev *ssa.Parameter,
+	classify func(ssa.Value, *ssa.Call) (bool, string),
+	ctrlFact func([]Fact) (ssa.Value, *ssa.Call),
+	searchOf func(ssa.Value) (ssa.Value, *ssa.Function),
+	searchFact func([]Fact, bool) (ssa.Value, *ssa.Function),
+	isObj, isPrevList func(ssa.Value) bool,
+) {
+	p := c.P
+	c.Visit(fn)
 	for _, rc := range p.returnCases(fn) {
 		if len(rc.Results) != 1 {
 			continue
 		}
 		res := stripConv(rc.Results[0])
 		if b, isConst := constBool(res); isConst {
+			if !b && fn != root {
+				continue // `return false` of a predicate: the search goes on with the next element
+			}
 			if !b {
 				// "not controlled by a previous revision" (which refuses a permitted adoption) may
 				// be answered only after every declared previous revision was examined: the return
@@ -994,8 +1091,15 @@ func c01PrevTest(c *Ctx, fn *ssa.Function) {
 				o := c.Ob(fn, "return-false", rc.Ret, "false (not controlled by a previous revision) is returned only after every declared previous revision was examined")
 				var whys []string
 				done := false
+				if sl, pred := searchFact(rc.Facts, false); pred != nil && isPrevList(sl) {
+					o.OK("slices.ContainsFunc over " + p.describe(sl) + " found no match: every element was examined")
+					done = true
+				}
 				for _, l := range rvRangeLoops(p, fn) {
-					if !isParam(l.Slice, prev) {
+					if done {
+						break
+					}
+					if !isPrevList(l.Slice) {
 						continue
 					}
 					if ok, why := l.onlyByExhaustion(rc.Ret); ok {
@@ -1018,6 +1122,12 @@ func c01PrevTest(c *Ctx, fn *ssa.Function) {
 			o := c.Ob(fn, "return-true", rc.Ret, c.rule.Statement)
 			owner, call := ctrlFact(rc.Facts)
 			if owner == nil {
+				if sl, pred := searchFact(rc.Facts, true); pred != nil {
+					o.OK("some element of " + p.describe(sl) + " satisfies " + shortFuncID(pred) + ", whose true answers are judged separately")
+					continue
+				}
+			}
+			if owner == nil {
 				o.Fail("returns true on a path that is not guarded by IsController(<previous revision or its remote phase>, obj); guards here: %s", strings.Join(factStrings(p, rc.Facts), " && "))
 				continue
 			}
@@ -1025,6 +1135,20 @@ func c01PrevTest(c *Ctx, fn *ssa.Function) {
 				o.OK(why)
 			} else {
 				o.Fail("%s", why)
+			}
+			continue
+		}
+		// `return slices.ContainsFunc(S, pred)`: true iff the predicate is for some element (judged
+		// at the predicate); false only after every element of S was examined
+		if sl, pred := searchOf(res); pred != nil {
+			if fn != root {
+				continue
+			}
+			o := c.Ob(fn, "return-false", rc.Ret, "false (not controlled by a previous revision) is returned only after every declared previous revision was examined")
+			if isPrevList(sl) {
+				o.OK("result of slices.ContainsFunc over " + p.describe(sl) + ": false only when no element matched")
+			} else {
+				o.Fail("the result is a search over %s, not over the whole list of previous revisions: an object controlled by a declared previous revision outside of it is refused although adoption is permitted", p.describe(sl))
 			}
 			continue
 		}
@@ -1036,7 +1160,7 @@ func c01PrevTest(c *Ctx, fn *ssa.Function) {
 			continue
 		}
 		owner, ob, ok := ownerStrategyCall(call.Common(), "IsController")
-		if !ok || !isParam(ob, obj) {
+		if !ok || !isObj(ob) {
 			o.Unknown("result %s is neither a constant nor IsController(_, obj)", p.describe(res))
 			continue
 		}
@@ -1626,9 +1750,11 @@ func c01ControllerRoutesError(c *Ctx, fn *ssa.Function, call *ssa.Call, isReport
 		}
 		return false
 	}
+	// returns that a possibly non-nil error of the call can reach (paths that pass a successful nil
+	// test of the error are not followed)
 	reach := map[*ssa.BasicBlock]bool{}
-	for _, in := range reachableAfter(call, nil) {
-		reach[in.Block()] = true
+	for _, r := range p.returnsReachedWithErr(call, carries) {
+		reach[r.Block()] = true
 	}
 	var problems []string
 	checked := 0
